@@ -7,49 +7,63 @@
 (* and the process can crash between any two steps; Restart brings up a fresh server  *)
 (* over the same disk.  Words are character sequences (DictOps); the in-memory        *)
 (* dictionary keeps one spelling per case-folded Id.                                  *)
+(* The file may exist before the server ever ran (hand-edited, or written by another   *)
+(* tool): InitDisks lists those contents; `open` says that the last line has no        *)
+(* terminator.  Words found there count as stored words.                               *)
 (* AtomicSave = FALSE is the code as it is: the file is truncated before the new       *)
 (* contents are written.  (TRUE models write-to-temp + rename, for comparison.)        *)
+(* AppendOnly = TRUE is a deviation a seeded change introduced (append "w\n" to the    *)
+(* file instead of rewriting it): the word is glued to an unterminated last line.      *)
 EXTENDS DictOps
 
-CONSTANTS Vocab, MaxAdds, MaxCrashes, AtomicSave
+CONSTANTS Vocab, MaxAdds, MaxCrashes, AtomicSave, InitDisks, AppendOnly
 
-Absent == [present |-> FALSE, lines |-> <<>>]
-File(ls) == [present |-> TRUE, lines |-> ls]
-VARIABLES disk, mem, pc, cur, added, maybe, crashes, lostByTruncate
-dfvars == <<disk, mem, pc, cur, added, maybe, crashes, lostByTruncate>>
+Absent == [present |-> FALSE, lines |-> <<>>, open |-> FALSE]
+File(ls) == [present |-> TRUE, lines |-> ls, open |-> FALSE]
+OpenFile(ls) == [present |-> TRUE, lines |-> ls, open |-> TRUE]
+VARIABLES disk, mem, pc, cur, added, nadds, maybe, crashes, lostByTruncate
+dfvars == <<disk, mem, pc, cur, added, nadds, maybe, crashes, lostByTruncate>>
 
 SetOf(s) == {s[i] : i \in DOMAIN s}
 Lines(d) == d.lines
 SeqOfSet(S) == CHOOSE s \in [1..Cardinality(S) -> S] : \A i, j \in DOMAIN s : i # j => s[i] # s[j]
 
-DFInit == disk = Absent /\ mem = <<>> /\ pc = "idle" /\ cur = <<>> /\ added = <<>> /\ maybe = {} /\ crashes = 0 /\ lostByTruncate = FALSE
+DFInit == disk \in InitDisks /\ mem = <<>> /\ pc = "idle" /\ cur = <<>> /\ added = disk.lines /\ nadds = 0 /\ maybe = {}
+          /\ crashes = 0 /\ lostByTruncate = FALSE
 
-Begin(w) == pc = "idle" /\ Len(added) < MaxAdds /\ cur' = w /\ pc' = "begin"
+Begin(w) == pc = "idle" /\ nadds < MaxAdds /\ cur' = w /\ pc' = "begin" /\ nadds' = nadds + 1
             /\ UNCHANGED <<disk, mem, added, maybe, crashes, lostByTruncate>>
-\* load_dict: every line becomes a word (a missing file gives an empty dictionary)
-Load == pc = "begin" /\ mem' = Lines(disk) /\ pc' = "loaded" /\ UNCHANGED <<disk, cur, added, maybe, crashes, lostByTruncate>>
-Append_ == pc = "loaded" /\ mem' = Append(mem, cur) /\ pc' = "appended" /\ UNCHANGED <<disk, cur, added, maybe, crashes, lostByTruncate>>
+\* load_dict: every line becomes a word (a missing file gives an empty dictionary); str::lines
+\* does not care whether the last line is terminated
+Load == pc = "begin" /\ ~AppendOnly /\ mem' = Lines(disk) /\ pc' = "loaded" /\ UNCHANGED <<disk, cur, added, nadds, maybe, crashes, lostByTruncate>>
+Append_ == pc = "loaded" /\ mem' = Append(mem, cur) /\ pc' = "appended" /\ UNCHANGED <<disk, cur, added, nadds, maybe, crashes, lostByTruncate>>
 \* File::create: the old contents are gone from here on
 Create == pc = "appended" /\ disk' = (IF AtomicSave THEN disk ELSE File(<<>>)) /\ pc' = "created"
-          /\ UNCHANGED <<mem, cur, added, maybe, crashes, lostByTruncate>>
-\* write_word_list + flush: one line per word of the map, in the map's order
+          /\ UNCHANGED <<mem, cur, added, nadds, maybe, crashes, lostByTruncate>>
+\* write_word_list + flush: one line per word of the map, in the map's order, each terminated
 WriteFlush == pc = "created" /\ disk' = File(SeqOfSet(MutWords(mem))) /\ pc' = "written"
-              /\ UNCHANGED <<mem, cur, added, maybe, crashes, lostByTruncate>>
+              /\ UNCHANGED <<mem, cur, added, nadds, maybe, crashes, lostByTruncate>>
+\* the deviation: open for append, write "w\n"
+AppendLine == pc = "begin" /\ AppendOnly /\ pc' = "written"
+              /\ disk' = (IF disk.open /\ Len(disk.lines) > 0
+                          THEN File([disk.lines EXCEPT ![Len(disk.lines)] = @ \o cur])
+                          ELSE File(Append(disk.lines, cur)))
+              /\ UNCHANGED <<mem, cur, added, nadds, maybe, crashes, lostByTruncate>>
 Done == pc = "written" /\ added' = Append(added, cur) /\ pc' = "idle" /\ mem' = <<>> /\ cur' = <<>>
-        /\ UNCHANGED <<disk, maybe, crashes, lostByTruncate>>
+        /\ UNCHANGED <<disk, nadds, maybe, crashes, lostByTruncate>>
 \* the process dies; whatever was buffered is lost
 Crash == pc # "idle" /\ crashes < MaxCrashes
          /\ crashes' = crashes + 1 /\ pc' = "idle" /\ mem' = <<>> /\ cur' = <<>>
          /\ maybe' = maybe \cup {cur}
          /\ lostByTruncate' = (lostByTruncate \/ (pc = "created" /\ ~AtomicSave))
-         /\ UNCHANGED <<disk, added>>
-DFNext == (\E w \in Vocab : Begin(w)) \/ Load \/ Append_ \/ Create \/ WriteFlush \/ Done \/ Crash
+         /\ UNCHANGED <<disk, added, nadds>>
+DFNext == (\E w \in Vocab : Begin(w)) \/ Load \/ Append_ \/ Create \/ WriteFlush \/ AppendLine \/ Done \/ Crash
 
 \* the words a restarted server finds
 Reload == MutWords(Lines(disk))
 CaseClash == HasIdClash(added) \/ \E i \in DOMAIN added : \E m \in maybe : m # added[i] /\ Id(m) = Id(added[i])
 
-\* C07: the saved file always reloads to exactly the words added so far; a crash may lose
+\* C07: the saved file always reloads to exactly the words stored so far; a crash may lose
 \* at most the word being added
 NeverLoses == pc = "idle" => (SetOf(added) \subseteq Reload /\ Reload \subseteq SetOf(added) \cup maybe)
 \* the same, with the two known deviations named: truncate-before-write and case-folded ids
